@@ -38,8 +38,22 @@ def run_world(c, kind, pre_junk=False):
     pkt = None
     if kind != "dsb":
         pkt = c.obj("tlexport.packet.Packet", tcp_packet=(kind == "tcp"), udp_packet=(kind == "udp"), timestamp=ts)
+        # the wrapper as Packet.__init__ leaves it (packet.init): IP version flag, endpoints, the decoder's objects with their checksum fields
+        v6 = c.bool("ipv6_packet")
+        c.set(pkt, "ipv6_packet", v6)
+        c.set(pkt, "binary", buf)
+        seg = None
+        if kind == "tcp":
+            seg = c.record("dpkt.tcp.TCP", sport=c.int("sport", 0, 65535), dport=c.int("dport", 0, 65535), seq=c.int("seq", 0, 2 ** 32 - 1), ack=c.int("ack", 0, 2 ** 32 - 1),
+                           flags=c.int("tcp_flags", 0, 255), sum=c.int("tcp_sum", 0, 65535), data=payload)
+        elif kind == "udp":
+            seg = c.record("dpkt.udp.UDP", sport=c.int("sport", 0, 65535), dport=c.int("dport", 0, 65535), ulen=c.int("udp_ulen", 0, 65535), sum=c.int("udp_sum", 0, 65535), data=payload)
+        c.set(pkt, "ip", c.record("dpkt.ip.IP", v=c.int("ip_v", 4, 6), sum=c.int("ip_sum", 0, 65535), data=seg))
         if kind in ("tcp", "udp"):
             c.set(pkt, "tls_data", payload)
+            c.set(pkt, kind, seg)
+            c.set(pkt, "sport", seg.attrs["sport"])
+            c.set(pkt, "dport", seg.attrs["dport"])
     w["pkt"] = pkt
 
     def s_packet(ctx, cls, b, t):
